@@ -667,14 +667,13 @@ End Part.
 Lemma dict_supplied_untruncated pr p size has_opt :
   let dd := set_custom_dictionary Repaired pr p size has_opt in
   (dd_mode dd = HChecked \/ dd_mode dd = HSupplied) ->
-  has_opt = true /\ dd_custom dd = true /\ dd_offset dd = 0 /\ dd_size dd = size /\ 1 < size.
+  has_opt = true /\ dd_custom dd = true /\ dd_offset dd = 0 /\ dd_size dd = size /\ 0 < size.
 Proof.
   cbn zeta. unfold set_custom_dictionary.
   destruct ((size =? 0) || (p_quality (sanitize_params p) =? 0)%Z || (p_quality (sanitize_params p) =? 1)%Z || (size <=? MULTI_DICT_MIN)) eqn:E0.
   - cbn [dd_mode]. destruct has_opt; intros [H|H]; discriminate.
   - cbn [dd_mode dd_custom dd_offset dd_size v_discard_truncated Repaired].
     apply orb_false_iff in E0. destruct E0 as [_ E1]. apply N.leb_gt in E1.
-    change MULTI_DICT_MIN with 1 in E1.
     destruct (2 ^ Z.to_N (p_lgwin (sanitize_params p)) - MULTI_DICT_GAP <? size) eqn:Et.
     + rewrite andb_true_l. cbn [negb]. rewrite andb_false_r. intros [H|H]; discriminate.
     + cbn [negb andb]. rewrite andb_true_r. destruct has_opt; [|intros [H|H]; discriminate].
@@ -994,5 +993,6 @@ End Favor.
 (* the code in /repo is the repaired code, and the anchors the model relies on are in place *)
 Lemma current_is_repaired :
   Current = Repaired /\ multi_get_range_is_floor_split = true /\ multi_job_flag_overrides = true /\
-  multi_dev_profile_compares_hasher = true /\ multi_hands_input_back = true /\ MULTI_EARLY_RETURNS = 1.
+  multi_dev_profile_compares_hasher = true /\ multi_hands_input_back = true /\
+  multi_dict_window_after_sanitize = true /\ MULTI_EARLY_RETURNS = 1.
 Proof. repeat split; reflexivity. Qed.
